@@ -545,8 +545,37 @@ def gen_script(rk, spec, kind, p=None):
         overshoot = kind == "tauleap" and rk.chance(p.get("tauleap_overshoot", 0.0))
         if overshoot:
             # a deliberately coarse step: tau-leap draws may exceed what a cell holds (entries go negative); valid, and the
-            # regime where guards against non-positive means and negative populations matter
-            dt = rk.uniform(0.8, 3.0) / lam if lam > 0 else dt
+            # regime where guards against non-positive means and negative populations matter. The mean-field trajectory
+            # must stay bounded (a coarse step on an autocatalytic network explodes towards counts beyond int range,
+            # outside what is treated as a valid stochastic script)
+            dt0 = dt
+            # per-molecule outflow rate of the linear channels (diffusion out of a cell, first-order reactions): the
+            # explicit scheme oscillates with growing amplitude beyond dt*rate = 2, so the coarse step stays below 1
+            lin = 0.0
+            if len(m.faces):
+                out = np.zeros((m.ns, m.nc))
+                for s_ in range(m.ns):
+                    np.add.at(out[s_], m.f_i, m.kd[s_])
+                lin = float(out.max())
+            for a_ in range(m.nh):
+                if int(m.order[a_]) == 1:
+                    lin = max(lin, float(m.kcell[a_].max()))
+            rate = max(lam, lin)
+            dt = rk.uniform(0.4, 0.95) / rate if rate > 0 else dt
+            for _ in range(5):
+                x = m.x0.copy()
+                ok = True
+                for _k in range(int(steps * 1.4) + 3):
+                    x = m.euler_step(np.maximum(x, 0.0), dt)
+                    if not np.all(np.isfinite(x)) or np.abs(x).max() > 20.0 * (float(np.abs(m.x0).max()) + 10.0):
+                        ok = False
+                        break
+                if ok:
+                    break
+                dt *= 0.5
+            else:
+                dt = dt0
+                overshoot = False
         for _ in range(0 if overshoot else 6):
             x = m.x0.copy()
             ok = True
